@@ -1,10 +1,16 @@
 #!/bin/sh
-# try_mutant.sh <seeded-id> <check>...: apply the seeded change to /repo, run the given checks, undo the change.
+# try_mutant.sh <seeded-id> <check>...: apply the seeded change to a scratch worktree of /repo's HEAD (never to /repo
+# itself), run the given checks against it, and undo the change.  Remove the worktree when done with
+#   git -C /repo worktree remove --force /var/tmp/mrepo
 cd "$(dirname "$0")/.."
 id=$1; shift
-trap 'git -C /repo checkout -q -- .' EXIT INT TERM
-git -C /repo diff --quiet || { echo "/repo is not clean"; exit 2; }
-git -C /repo apply "$(pwd)/seeded/$id/patch.diff" || { echo "$id APPLY-FAILED"; exit 2; }
+M=/var/tmp/mrepo
+[ -d $M ] || git -C /repo worktree add -q --detach $M HEAD || exit 2
+[ "$(git -C $M rev-parse HEAD)" = "$(git -C /repo rev-parse HEAD)" ] || git -C $M checkout -q --detach "$(git -C /repo rev-parse HEAD)"
+trap 'git -C $M checkout -q -- .; git -C $M clean -fdq' EXIT INT TERM
+git -C $M checkout -q -- .
+git -C $M apply "$(pwd)/seeded/$id/patch.diff" || { echo "$id APPLY-FAILED"; exit 2; }
+export VERIF_REPO=$M
 for c in "$@"; do
   out=$(bin/check $c 2>&1); rc=$?
   echo "$id $c rc=$rc $(echo "$out" | grep -c '^VIOLATION') violation(s)"
